@@ -508,3 +508,245 @@ Proof.
 Qed.
 
 End Codec.
+
+(* ====================================================================== *)
+(* 3. names: what into_rpc registers                                       *)
+(* ====================================================================== *)
+
+Section NamesFacts.
+Variable ty : Type.
+Import Registry RegistryFacts.
+
+(* the registrations on the single fresh module, value level *)
+Definition apply_op (ms : methods) (o : op) : methods :=
+  match o with
+  | Reg O r => fst (v_register ms r)
+  | Alias O al e => fst (v_alias ms al e)
+  | _ => ms
+  end.
+Definition apply_ops (ms : methods) (os : list op) : methods := fold_left apply_op os ms.
+
+Definition on_zero (o : op) : Prop :=
+  match o with Reg O _ | Alias O _ _ => True | _ => False end.
+
+Lemma vexec_single os : forall ms, Forall on_zero os -> vexec [ms] os = [apply_ops ms os].
+Proof.
+  induction os as [|o os IH]; intros ms H; [reflexivity|]. inversion H as [|? ? Ho Hos]; subst.
+  unfold vexec, apply_ops. cbn [fold_left]. fold (vexec (fst (vstep [ms] o)) os). fold (apply_ops (apply_op ms o) os).
+  assert (E : fst (vstep [ms] o) = [apply_op ms o]).
+  { destruct o as [m r|m al e| | | | | |]; try destruct Ho; destruct m as [|m]; try destruct Ho; cbn [vstep length apply_op].
+    - change (0 <? 1)%nat with true. cbv iota. cbn [nth]. destruct (v_register ms r). reflexivity.
+    - change (0 <? 1)%nat with true. cbv iota. cbn [nth]. destruct (v_alias ms al e). reflexivity. }
+  rewrite E. apply IH, Hos.
+Qed.
+
+Lemma into_rpc_on_zero (a : api ty) : Forall on_zero (into_rpc_ops a).
+Proof.
+  unfold into_rpc_ops. repeat (apply Forall_app; split).
+  - unfold mapi. generalize 0%nat. induction (a_methods a) as [|m l IH]; intro i; [constructor|].
+    cbn [mapi_from]. constructor; [exact I | apply IH].
+  - unfold mapi. generalize 0%nat. induction (a_subs a) as [|m l IH]; intro i; [constructor|].
+    cbn [mapi_from]. constructor; [exact I | apply IH].
+  - induction (a_methods a) as [|m l IH]; [constructor|]. cbn [flat_map]. apply Forall_app. split; [|exact IH].
+    unfold method_alias_regs. induction (m_aliases m); constructor; [exact I | assumption].
+  - induction (a_subs a) as [|m l IH]; [constructor|]. cbn [flat_map]. apply Forall_app. split; [|exact IH].
+    unfold sub_alias_regs. apply Forall_app. split.
+    + induction (s_aliases m); constructor; [exact I | assumption].
+    + induction (s_unsub_aliases m); constructor; [exact I | assumption].
+Qed.
+
+Theorem registry_value (a : api ty) : registry a = apply_ops [] (into_rpc_ops a).
+Proof.
+  unfold registry. rewrite get_view. destruct (exec_refines init (into_rpc_ops a) wf_init) as [_ V]. rewrite V.
+  change (view init) with [@nil (name * binding)]. rewrite vexec_single by apply into_rpc_on_zero. reflexivity.
+Qed.
+
+(* an operation that succeeds adds entries at the end *)
+Inductive good_op (ms : methods) : op -> methods -> Prop :=
+| good_method n h : good_op ms (Reg 0 (RMethod n h)) [(n, Bind h KSync)]
+| good_async n h : good_op ms (Reg 0 (RAsync n h)) [(n, Bind h KAsync)]
+| good_blocking n h : good_op ms (Reg 0 (RBlocking n h)) [(n, Bind h KBlocking)]
+| good_sub raw sn un h : good_op ms (Reg 0 (RSub raw sn un h)) [(un, Bind h KUnsub); (sn, Bind h KSub)]
+| good_alias al e b : lookup e ms = Some b -> good_op ms (Alias 0 al e) [(al, b)].
+
+Lemma NoDup_app_remove_r {A} (l r : list A) : NoDup (l ++ r) -> NoDup l.
+Proof.
+  induction l as [|x l IH]; intro H; [constructor|]. cbn [app] in H. inversion H as [|? ? Hx H']; subst.
+  constructor; [intro Hin; apply Hx, in_or_app; left; exact Hin | apply IH, H'].
+Qed.
+Lemma NoDup_app_remove_l {A} (l r : list A) : NoDup (l ++ r) -> NoDup r.
+Proof. induction l as [|x l IH]; intro H; [exact H|]. cbn [app] in H. inversion H; subst. apply IH. assumption. Qed.
+
+Lemma not_in_app_l {A} (x : A) l r : NoDup (l ++ r) -> In x r -> ~ In x l.
+Proof.
+  induction l as [|y l IH]; intros ND Hr; [tauto|]. cbn [app] in ND. inversion ND as [|? ? Hy ND']; subst.
+  intros [->|Hl]; [apply Hy, in_or_app; right; exact Hr | exact (IH ND' Hr Hl)].
+Qed.
+
+Lemma v_insert_fresh ms n b : ~ In n (map fst ms) -> fst (v_insert ms n b) = ms ++ [(n, b)].
+Proof.
+  intro H. apply lookup_none_iff in H. unfold v_insert. rewrite H. cbn [fst]. apply hm_insert_fresh, H.
+Qed.
+
+Lemma apply_good ms o es : good_op ms o es -> NoDup (map fst ms ++ map fst es) -> apply_op ms o = ms ++ es.
+Proof.
+  intros G ND. destruct G as [n h|n h|n h|raw sn un h|al e b Hl]; cbn [apply_op v_register map fst] in *.
+  1-3: apply v_insert_fresh; apply (not_in_app_l n _ _ ND); left; reflexivity.
+  - assert (Hun : ~ In un (map fst ms)) by (apply (not_in_app_l un _ _ ND); left; reflexivity).
+    assert (Hsn : ~ In sn (map fst ms)) by (apply (not_in_app_l sn _ _ ND); right; left; reflexivity).
+    assert (Hne : sn <> un).
+    { apply NoDup_app_remove_l in ND. inversion ND as [|? ? Hx _]; subst. intro E. apply Hx. left. exact E. }
+    apply beq_false in Hne. rewrite Hne.
+    apply lookup_none_iff in Hun, Hsn.
+    rewrite (proj2 (contains_key_false sn ms) Hsn), (proj2 (contains_key_false un ms) Hun).
+    unfold v_insert. rewrite lookup_hm_insert, Hne, Hsn. cbn [fst].
+    rewrite (hm_insert_fresh un _ ms Hun). rewrite hm_insert_fresh.
+    + rewrite <- app_assoc. reflexivity.
+    + rewrite lookup_app, Hsn. cbn [lookup]. rewrite Hne. reflexivity.
+  - assert (Hal : ~ In al (map fst ms)) by (apply (not_in_app_l al _ _ ND); left; reflexivity).
+    apply lookup_none_iff in Hal. unfold v_alias.
+    rewrite (proj2 (contains_key_false al ms) Hal), Hl. cbn [fst]. apply hm_insert_fresh, Hal.
+Qed.
+
+Inductive good_ops : methods -> list op -> methods -> Prop :=
+| good_nil ms : good_ops ms [] []
+| good_cons ms o es os ess : good_op ms o es -> good_ops (ms ++ es) os ess -> good_ops ms (o :: os) (es ++ ess).
+
+Lemma apply_good_ops ms os ess : good_ops ms os ess -> NoDup (map fst ms ++ map fst ess) -> apply_ops ms os = ms ++ ess.
+Proof.
+  induction 1 as [ms|ms o es os ess Go _ IH]; intro ND; [rewrite app_nil_r; reflexivity|].
+  unfold apply_ops. cbn [fold_left]. fold (apply_ops (apply_op ms o) os).
+  rewrite map_app, app_assoc in ND.
+  rewrite (apply_good ms o es Go) by (apply NoDup_app_remove_r in ND; exact ND).
+  rewrite IH by (rewrite map_app; exact ND). rewrite <- app_assoc. reflexivity.
+Qed.
+
+Lemma good_ops_app ms o1 e1 o2 e2 : good_ops ms o1 e1 -> good_ops (ms ++ e1) o2 e2 -> good_ops ms (o1 ++ o2) (e1 ++ e2).
+Proof.
+  induction 1 as [ms|ms o es os ess Go _ IH]; intro H2; cbn [app].
+  - rewrite app_nil_r in H2. exact H2.
+  - rewrite <- app_assoc. constructor; [exact Go|]. apply IH. rewrite <- app_assoc. exact H2.
+Qed.
+
+(* ---------- the four groups of registrations ---------- *)
+
+Lemma good_methods (a : api ty) l : forall i ms, good_ops ms (mapi_from (method_reg a) i l) (mapi_from (method_entry a) i l).
+Proof.
+  induction l as [|m l IH]; intros i ms; [constructor|]. cbn [mapi_from].
+  change (method_entry a i m :: mapi_from (method_entry a) (S i) l) with ([method_entry a i m] ++ mapi_from (method_entry a) (S i) l).
+  constructor; [|apply IH].
+  unfold method_reg, method_entry, method_binding. destruct (m_kind m); constructor.
+Qed.
+
+Lemma good_subs (a : api ty) l : forall j ms, good_ops ms (mapi_from (sub_reg a) j l) (concat (mapi_from (sub_entries a) j l)).
+Proof.
+  induction l as [|s l IH]; intros j ms; [constructor|]. cbn [mapi_from concat].
+  constructor; [|apply IH]. unfold sub_reg, sub_entries, sub_binding, unsub_binding. constructor.
+Qed.
+
+Lemma lookup_keep n b ms es : lookup n ms = Some b -> lookup n (ms ++ es) = Some b.
+Proof. intro H. rewrite lookup_app, H. reflexivity. Qed.
+
+Lemma good_aliases tgt b als : forall ms, lookup tgt ms = Some b ->
+  good_ops ms (map (fun al => Alias 0 al tgt) als) (map (fun al => (al, b)) als).
+Proof.
+  induction als as [|al als IH]; intros ms H; [constructor|]. cbn [map].
+  change ((al, b) :: map (fun al0 => (al0, b)) als) with ([(al, b)] ++ map (fun al0 => (al0, b)) als).
+  constructor; [constructor; exact H|]. apply IH, lookup_keep, H.
+Qed.
+
+Lemma good_method_aliases (a : api ty) l : forall i ms,
+  (forall k m, nth_error l k = Some m -> lookup (rpc_identifier a (m_name m)) ms = Some (method_binding (i + k) m)) ->
+  good_ops ms (flat_map (method_alias_regs a) l) (concat (mapi_from method_alias_entries i l)).
+Proof.
+  induction l as [|m l IH]; intros i ms H; [constructor|]. cbn [flat_map mapi_from concat].
+  apply good_ops_app.
+  - unfold method_alias_regs, method_alias_entries. apply good_aliases.
+    specialize (H 0%nat m eq_refl). rewrite Nat.add_0_r in H. exact H.
+  - apply IH. intros k m' Hk. apply lookup_keep. specialize (H (S k) m' Hk).
+    replace (S i + k)%nat with (i + S k)%nat by lia. exact H.
+Qed.
+
+Lemma good_sub_aliases (a : api ty) l : forall j ms,
+  (forall k s, nth_error l k = Some s ->
+     lookup (rpc_identifier a (s_name s)) ms = Some (sub_binding a (j + k)) /\
+     lookup (rpc_identifier a (unsub_name s)) ms = Some (unsub_binding a (j + k))) ->
+  good_ops ms (flat_map (sub_alias_regs a) l) (concat (mapi_from (sub_alias_entries a) j l)).
+Proof.
+  induction l as [|s l IH]; intros j ms H; [constructor|]. cbn [flat_map mapi_from concat].
+  apply good_ops_app.
+  - unfold sub_alias_regs, sub_alias_entries. destruct (H 0%nat s eq_refl) as [H1 H2]. rewrite Nat.add_0_r in H1, H2.
+    apply good_ops_app; [apply good_aliases, H1 | apply good_aliases, lookup_keep, H2].
+  - apply IH. intros k s' Hk. destruct (H (S k) s' Hk) as [H1 H2].
+    replace (S j + k)%nat with (j + S k)%nat by lia. split; apply lookup_keep; assumption.
+Qed.
+
+Lemma mapi_from_in {A B} (f : nat -> A -> B) l : forall i k x, nth_error l k = Some x -> In (f (i + k)%nat x) (mapi_from f i l).
+Proof.
+  induction l as [|y l IH]; intros i [|k] x H; try discriminate; cbn [mapi_from].
+  - cbn in H. inv_some H. rewrite Nat.add_0_r. left. reflexivity.
+  - right. replace (i + S k)%nat with (S i + k)%nat by lia. apply IH, H.
+Qed.
+
+Lemma in_concat_mapi {A B} (f : nat -> A -> list B) l : forall i k x y, nth_error l k = Some x -> In y (f (i + k)%nat x) ->
+  In y (concat (mapi_from f i l)).
+Proof.
+  induction l as [|z l IH]; intros i [|k] x y H Hy; try discriminate; cbn [mapi_from concat]; apply in_or_app.
+  - cbn in H. inv_some H. rewrite Nat.add_0_r in Hy. left. exact Hy.
+  - right. replace (i + S k)%nat with (S i + k)%nat in Hy by lia. apply (IH (S i) k x y H Hy).
+Qed.
+
+Theorem registry_expected (a : api ty) : NoDup (registered_names a) -> registry a = expected_table a.
+Proof.
+  intro ND. rewrite registry_value. unfold registered_names in ND.
+  change (expected_table a) with ([] ++ expected_table a). apply apply_good_ops; [|exact ND].
+  unfold into_rpc_ops, expected_table, mapi in *.
+  set (E1 := mapi_from (method_entry a) 0 (a_methods a)) in *.
+  set (E2 := concat (mapi_from (sub_entries a) 0 (a_subs a))) in *.
+  assert (ND12 : NoDup (map fst (E1 ++ E2))).
+  { rewrite !map_app in ND. rewrite app_assoc in ND. apply NoDup_app_remove_r in ND. rewrite map_app. exact ND. }
+  apply good_ops_app; [apply good_methods|]. cbn [app].
+  apply good_ops_app; [apply good_subs|].
+  apply good_ops_app.
+  - apply good_method_aliases. intros k m Hk. cbn [Nat.add]. apply in_lookup_nodup; [exact ND12|].
+    apply in_or_app. left. apply (mapi_from_in (method_entry a) _ 0 k m Hk).
+  - apply good_sub_aliases. intros k s Hk. cbn [Nat.add].
+    split; apply lookup_keep; (apply in_lookup_nodup; [exact ND12|]); apply in_or_app; right;
+      apply (in_concat_mapi (sub_entries a) _ 0 k s _ Hk); cbn [Nat.add sub_entries]; [right; left | left]; reflexivity.
+Qed.
+
+(* every declared name resolves to its own handler, nothing else resolves *)
+Theorem names_resolve (a : api ty) : NoDup (registered_names a) ->
+  (forall i m, nth_error (a_methods a) i = Some m ->
+     resolve a (rpc_identifier a (m_name m)) = Some (method_binding i m) /\
+     (forall al, In al (m_aliases m) -> resolve a al = Some (method_binding i m))) /\
+  (forall j s, nth_error (a_subs a) j = Some s ->
+     resolve a (rpc_identifier a (s_name s)) = Some (sub_binding a j) /\
+     resolve a (rpc_identifier a (unsub_name s)) = Some (unsub_binding a j) /\
+     (forall al, In al (s_aliases s) -> resolve a al = Some (sub_binding a j)) /\
+     (forall al, In al (s_unsub_aliases s) -> resolve a al = Some (unsub_binding a j))) /\
+  (forall n, ~ In n (registered_names a) -> resolve a n = None).
+Proof.
+  intro ND. unfold resolve. rewrite (registry_expected a ND).
+  assert (L : forall n b, In (n, b) (expected_table a) -> lookup n (expected_table a) = Some b)
+    by (intros n b; apply in_lookup_nodup; exact ND).
+  unfold expected_table, mapi in L.
+  repeat split.
+  - apply L. apply in_or_app. left. apply (mapi_from_in (method_entry a) _ 0 i m H).
+  - intros al Hal. apply L. apply in_or_app. right. apply in_or_app. right. apply in_or_app. left.
+    apply (in_concat_mapi method_alias_entries _ 0 i m _ H). unfold method_alias_entries. cbn [Nat.add].
+    apply in_map_iff. exists al. split; [reflexivity | exact Hal].
+  - apply L. apply in_or_app. right. apply in_or_app. left.
+    apply (in_concat_mapi (sub_entries a) _ 0 j s _ H). right. left. reflexivity.
+  - apply L. apply in_or_app. right. apply in_or_app. left.
+    apply (in_concat_mapi (sub_entries a) _ 0 j s _ H). left. reflexivity.
+  - intros al Hal. apply L. do 3 (apply in_or_app; right).
+    apply (in_concat_mapi (sub_alias_entries a) _ 0 j s _ H). unfold sub_alias_entries. cbn [Nat.add].
+    apply in_or_app. left. apply in_map_iff. exists al. split; [reflexivity | exact Hal].
+  - intros al Hal. apply L. do 3 (apply in_or_app; right).
+    apply (in_concat_mapi (sub_alias_entries a) _ 0 j s _ H). unfold sub_alias_entries. cbn [Nat.add].
+    apply in_or_app. right. apply in_map_iff. exists al. split; [reflexivity | exact Hal].
+  - intros n Hn. apply lookup_none_iff. exact Hn.
+Qed.
+
+End NamesFacts.
